@@ -7,8 +7,6 @@ import (
 	"maps"
 	"reflect"
 	"slices"
-
-	"gopkg.in/yaml.v3"
 )
 
 func popMapValue(m map[string]any, k string) (bool, any, map[string]any) {
@@ -303,19 +301,9 @@ func toStringListPermissive(v any) ([]string, error) {
 }
 
 func deepClone(v any) (any, error) {
-	yml, err := yaml.Marshal(v)
-	if err != nil {
-		return nil, err
-	}
-
-	var ret any
-
-	err = yaml.Unmarshal(yml, &ret)
-	if err != nil {
-		return nil, err
-	}
-
-	return ret, nil
+	// A YAML round trip does not preserve values: integral floats come back
+	// as integers and the key "<<" is read as a merge key.
+	return cloneValue(v), nil
 }
 
 // cloneValue returns a structural deep copy of a decoded document tree.
